@@ -111,11 +111,12 @@ fn check(argc: usize, envc: usize, pattern: usize, size: u64, layout: usize) -> 
     if rsp0 % 16 != 0 {
         v(format!("stack-init|rsp-misaligned|{sc}"), format!("{ctx}: entry RSP {rsp0:#x} is not 16-byte aligned"));
     }
-    let stack_area = areas.iter().find(|a| a.start == stack_start && a.name.as_deref() == Some("Stack"));
+    // the area the returned start address names (its label is not part of the property)
+    let stack_area = areas.iter().find(|a| a.start == stack_start);
     let stack_area = match stack_area {
         Some(a) => a.clone(),
         None => {
-            v(format!("stack-init|no-stack-area|{sc}"), format!("{ctx}: returned start {stack_start:#x} is not a Stack area"));
+            v(format!("stack-init|no-stack-area|{sc}"), format!("{ctx}: no area starts at the returned address {stack_start:#x}"));
             return viol;
         }
     };
